@@ -20,6 +20,49 @@ ASSUMPTIONS = [
 ]
 
 
+class RuleAlias:
+    """Runs another property's rule function on behalf of this one: the checks of the rules named in `mapping` are
+    recorded under this property's rule id, everything else the borrowed function does is ignored.  (Sibling properties
+    share necessary conditions - e.g. "the decoder terminates" belongs to C03 and to C08.)"""
+
+    def __init__(self, ctx, mapping):
+        self._ctx = ctx
+        self._map = mapping
+
+    @property
+    def prog(self):
+        return self._ctx.prog
+
+    tier = property(lambda self: self._ctx.tier)
+    seed = property(lambda self: self._ctx.seed)
+    cfg = property(lambda self: self._ctx.cfg)
+
+    def rule(self, rid, text):
+        pass
+
+    def note(self, text):
+        pass
+
+    def decline(self, text):
+        pass
+
+    def ok(self, rule, *a, **k):
+        if rule in self._map:
+            self._ctx.ok(self._map[rule], *a, **k)
+
+    def bad(self, rule, *a, **k):
+        if rule in self._map:
+            self._ctx.bad(self._map[rule], *a, **k)
+
+    def check(self, cond, rule, *a, **k):
+        if rule in self._map:
+            self._ctx.check(cond, self._map[rule], *a, **k)
+
+    def floor(self, rule, *a, **k):
+        if rule in self._map:
+            self._ctx.floor(self._map[rule], *a, **k)
+
+
 class Ctx:
     def __init__(self, prop, tier, prog, seed=0):
         self.prop = prop
